@@ -1,6 +1,6 @@
 SPECIFICATION Spec
 CONSTANT JobDefs <- JD_3
-CONSTANT MaxEvents = 6
+CONSTANT MaxEvents = 5
 CONSTANT MaxBuiltins = 1
 CONSTANT Legacy <- NoLegacy
 VIEW view
